@@ -63,8 +63,13 @@ def make_cases(tr):
         ident = rng.choice([None, b"snoopy", b"id-%{snoopy_literal:x}", b"%{env:IDV}", b"a b[c]:", b""])
         real = (rng.random() < (0.12 if tr == "quick" else 0.09)) and out != "devtty"
         errlog = rng.random() < 0.08
+        static = rng.random() < 0.15
+        if static:
+            msg = b"STATIC"
+            chain = rng.choice(["noop", "noop;noop", "exclude_uid:5;noop", "noop;only_root", ""])
+            drop = False
         afterfork = (not real) and out != "devtty" and rng.random() < 0.12
-        cases.append(dict(afterfork=afterfork, id=i + 1, out=out, lm=lm, msg=msg, chain=chain, drop=drop, fac=fac, lvl=lvl, ident=ident, real=real,
+        cases.append(dict(static=static, afterfork=afterfork, id=i + 1, out=out, lm=lm, msg=msg, chain=chain, drop=drop, fac=fac, lvl=lvl, ident=ident, real=real,
                           errlog=errlog, sk=sk, spell=rng.choice(["plain", "LOG_", "lower"])))
     # systematic size sweep per output: every power of two -1/0/+1 up to 128 KiB and the stdio / page boundaries
     sweep = sorted({max(1, (1 << k) + d) for k in range(0, 18) for d in (-1, 0, 1)} | {255, 256, 1000, 2047, 2048, 4094, 4095, 4096, 4097, 8191, 8192, 16383})
@@ -87,7 +92,10 @@ def conf_for(c, B):
         fac, lvl = "LOG_" + fac, "LOG_" + lvl
     elif c["spell"] == "lower":
         fac, lvl = fac.lower(), "log_" + lvl.lower()
-    t = "[snoopy]\nlog_message_max_length = %d\ndatasource_message_max_length = %d\nmessage_format = \"%%{cmdline}\"\n" % (c["lm"], max(255, c["lm"]))
+    fmt = "%{cmdline}"
+    if c.get("static"):
+        fmt = "STATIC"
+    t = "[snoopy]\nlog_message_max_length = %d\ndatasource_message_max_length = %d\nmessage_format = \"%s\"\n" % (c["lm"], max(255, c["lm"]), fmt)
     t += "syslog_facility = %s\nsyslog_level = %s\n" % (fac, lvl)
     if outline:
         t += "output = %s\n" % outline
